@@ -30,6 +30,7 @@ namespace functions {
 
 template<>
 Tensor positive(const Tensor &x) {
+  x.check_valid();
   return x;
 }
 
